@@ -112,6 +112,11 @@ def main(argv=None):
         json.dump(out, open(a.out, "w"), default=repr)
         return 3
 
+    # everything imported so far is immortal for our purposes: keep it out of later gc passes
+    import gc
+    gc.collect()
+    gc.freeze()
+
     def account(spec, res, idx):
         st = res.get("status", "ok")
         if st == "timeout":
